@@ -15,8 +15,8 @@ package main
 
 import (
 	"fmt"
-	"os"
 	"go/types"
+	"os"
 	"strings"
 
 	"golang.org/x/tools/go/ssa"
@@ -188,9 +188,28 @@ func (fc *FnCtx) lockOp(fr *Frame, st *State, reach string, op string, mu Val, c
 	st.locks[key] = "false"
 }
 
-// guardedAccess: reading or writing a guarded field requires the lock.
+// ownedGhost: the ownership ghost guarding objects of this type, if any.
+func (fc *FnCtx) ownedGhost(t types.Type) string {
+	if n := namedOf(t); n != nil && n.Obj().Pkg() != nil {
+		return fc.eng.owned[n.Obj().Pkg().Path()+"."+n.Obj().Name()]
+	}
+	return ""
+}
+
+// guardedAccess: reading or writing a guarded field requires the lock; touching
+// an owned object requires holding its ownership token.
 func (fc *FnCtx) guardedAccess(fr *Frame, st *State, reach string, a *Addr, write bool) {
-	if fc.quiet > 0 || fc.freshObj[a.Base] {
+	if fc.quiet > 0 {
+		return
+	}
+	if a.Kind == AObj {
+		if g := fc.ownedGhost(a.Root); g != "" {
+			tok := fc.loadLoc(st, loc{name: "GH$" + g, idx: []string{a.Base}, sort: "Int"})
+			p, _ := pathName(a.Root, a.Path)
+			fc.oblige(fr, "owned", fmt.Sprintf("access to %s.%s needs %s", typeName(a.Root), p, g), reach, tEq(tok, "1"), false, nil)
+		}
+	}
+	if fc.freshObj[a.Base] {
 		return
 	}
 	for _, m := range fc.monitorsGuarding(a) {
@@ -207,5 +226,98 @@ func (fc *FnCtx) guardedAccess(fr *Frame, st *State, reach string, a *Addr, writ
 			kind = "write"
 		}
 		fc.oblige(fr, "guarded", fmt.Sprintf("%s of %s.%s needs %s", kind, m.RootT, p, m.Name), reach, held, false, nil)
+	}
+}
+
+// consume: check that each token is held, then give it away.
+func (fc *FnCtx) consume(fr *Frame, st *State, reach string, con *Contract, vars map[string]Val, items []string, what string, cond string) {
+	for _, it := range items {
+		it = strings.TrimSpace(it)
+		i := strings.Index(it, "(")
+		if i < 0 || !strings.HasSuffix(it, ")") {
+			panic(specErr{"consumes/produces expects ghost(expr): " + it})
+		}
+		g := fc.eng.ghosts[it[:i]]
+		if g == nil || !g.Field {
+			panic(specErr{"unknown ghost field in " + it})
+		}
+		sp, err := parseSpec(it[i+1 : len(it)-1])
+		if err != nil {
+			panic(specErr{err.Error()})
+		}
+		env := fc.specEnv(st, nil, vars, con.Pkg, nil, it)
+		ref := refOf(env.eval(sp))
+		l := loc{name: "GH$" + g.Name, idx: []string{ref}, sort: "Int"}
+		cur := fc.loadLoc(st, l)
+		fc.oblige(fr, "consumes", what+": "+it+" held", reach, tEq(cur, "1"), false, nil)
+		fc.storeLoc(st, l, tIte(cond, "0", cur))
+	}
+}
+
+func (fc *FnCtx) produce(st *State, con *Contract, vars map[string]Val, items []string) {
+	for _, it := range items {
+		it = strings.TrimSpace(it)
+		i := strings.Index(it, "(")
+		g := fc.eng.ghosts[it[:i]]
+		sp, err := parseSpec(it[i+1 : len(it)-1])
+		if err != nil || g == nil {
+			panic(specErr{"bad produces item " + it})
+		}
+		env := fc.specEnv(st, nil, vars, con.Pkg, nil, it)
+		ref := refOf(env.eval(sp))
+		fc.storeLoc(st, loc{name: "GH$" + g.Name, idx: []string{ref}, sort: "Int"}, "1")
+	}
+}
+
+// chanContract finds the chanfield contract for a channel value loaded from a struct field.
+func (fc *FnCtx) chanContract(ch Val) *Contract {
+	if ch.Orig == "" {
+		return nil
+	}
+	return fc.eng.contracts["chanfield:"+ch.Orig]
+}
+
+// chanSend: channel invariant checked, tokens handed over (when cond holds: the send case fired).
+func (fc *FnCtx) chanSend(fr *Frame, st *State, reach string, ch Val, sent Val, cond string) {
+	con := fc.chanContract(ch)
+	if con == nil {
+		return
+	}
+	fc.usedContracts[con.Key] = true
+	vars := bindParams(con, nil, []Val{ch, sent})
+	for _, cl := range con.Requires {
+		env := fc.specEnv(st, nil, vars, con.Pkg, nil, cl.Text)
+		fc.oblige(fr, "chan-invariant", con.Key[len("chanfield:"):]+": "+clauseName(cl), reach, env.evalBool(cl.Expr), env.quant, nil)
+	}
+	fc.consume(fr, st, reach, con, vars, con.Consumes, "send on "+con.Key[len("chanfield:"):], cond)
+}
+
+// chanRecv: the received value satisfies the channel invariant and brings its tokens.
+func (fc *FnCtx) chanRecv(st *State, reach string, ch Val, got Val, cond string) {
+	con := fc.chanContract(ch)
+	if con == nil {
+		return
+	}
+	fc.usedContracts[con.Key] = true
+	fc.assumption("channel invariant assumed at receive (checked at every send in verified code): " + con.Key)
+	vars := bindParams(con, nil, []Val{ch, got})
+	for _, cl := range con.Requires {
+		env := fc.specEnv(st, nil, vars, con.Pkg, nil, cl.Text)
+		fc.sc.assume(tImp(tAnd(reach, cond), env.evalBool(cl.Expr)))
+	}
+	if cond == "true" {
+		fc.produce(st, con, vars, con.Produces)
+	} else {
+		// conditional production: token is 1 if this case fired
+		for _, it := range con.Produces {
+			i := strings.Index(it, "(")
+			g := fc.eng.ghosts[strings.TrimSpace(it[:i])]
+			sp, _ := parseSpec(it[i+1 : len(strings.TrimSpace(it))-1])
+			env := fc.specEnv(st, nil, vars, con.Pkg, nil, it)
+			ref := refOf(env.eval(sp))
+			l := loc{name: "GH$" + g.Name, idx: []string{ref}, sort: "Int"}
+			cur := fc.loadLoc(st, l)
+			fc.storeLoc(st, l, tIte(cond, "1", cur))
+		}
 	}
 }
